@@ -429,12 +429,17 @@ fn shipped_cached() -> &'static Vec<(String, String)> {
 /// numeric fields, independent of the SUT's parser.
 pub fn scale_from_text(text: &str, area: f64) -> Scale {
     let mut e_t: Vec<f64> = Vec::new();
+    let mut n_an = 0.0f64;
     for line in text.lines() {
         let l = line.trim().trim_start_matches('\u{feff}');
-        if l.starts_with('#') || l.is_empty() || l.contains("DEMANDA") || l.contains("SALIDA") {
+        if l.starts_with('#') || l.is_empty() || l.contains("SALIDA") {
             continue;
         }
         let data = l.split('#').next().unwrap_or("");
+        if l.contains("DEMANDA") {
+            n_an += data.split(',').filter_map(|t| t.trim().parse::<f64>().ok()).filter(|v| v.is_finite()).map(f64::abs).sum::<f64>();
+            continue;
+        }
         let nums: Vec<f64> = data.split(',').rev().map(str::trim).map_while(|t| t.parse::<f64>().ok()).collect();
         // nums is reversed and may include the id if the line is only numbers; ids come first so they
         // are only swallowed when every field is numeric, which no component line is
@@ -448,5 +453,5 @@ pub fn scale_from_text(text: &str, area: f64) -> Scale {
             }
         }
     }
-    Scale { e_an: e_t.iter().sum(), e_t, area }
+    Scale { e_an: e_t.iter().sum(), e_t, n_an, area }
 }
